@@ -49,6 +49,7 @@ def run(ctx: Ctx):
 
     rng = ctx.rng
     g = lm.get_sqrt_ratio_at_tick
+    ctx0 = _context_fingerprint()     # the decimal context `import demeter` sets up; no conversion may change it
     # ---------------------------------------------------------------- tick -> sqrt
     if ctx.thorough:
         ticks = list(range(MIN_TICK, MAX_TICK + 1))
@@ -180,6 +181,9 @@ def run(ctx: Ctx):
         if abs(Fraction(price) * Fraction(p3) - 1) > Fraction(1, 10 ** 30):
             ctx.violate("helpers.orientation", f"tick_to_base_unit_price({t}) orientations are not reciprocal", {"fn": "orientation", "tick": t, "d0": d0, "d1": d1})
 
+    if _context_fingerprint() != ctx0:
+        ctx.violate("helpers.process-state.decimal-context.run", f"the conversions above left the process-wide decimal context changed: {ctx0} -> {_context_fingerprint()}",
+                    {"fn": "helpers_price"})
     # ---------------------------------------------------------------- price <-> tick helpers: model correspondence (bit-exact)
     helpers_correspondence(ctx, hp, g)
 
@@ -214,11 +218,31 @@ DEC_CHOICES = (0, 1, 2, 6, 8, 9, 12, 18, 24, 27)
 LG_DELTA_TICKS = Decimal("2e-5")   # ln(1 + 1e-9) / ln(sqrt(1.0001)): the oracle hypothesis `LgSound (1e-9)` of Proofs/C06/Inverse.lean
 
 
+CONTEXT_LEAKS = []   # (helper name, {field: (before, after)}, args) — a conversion helper must leave the process-wide decimal context alone
+
+
+def _context_fingerprint():
+    import decimal
+    c = decimal.getcontext()
+    return {"prec": c.prec, "rounding": c.rounding, "Emin": c.Emin, "Emax": c.Emax, "capitals": c.capitals, "clamp": c.clamp,
+            "traps": sorted(k.__name__ for k, v in c.traps.items() if v)}
+
+
 def _exc_name(f, *a):
+    """("ok", value) | ("err", ExceptionClass) of one helper call; a change of the process-wide decimal context by the call is recorded and undone
+    (the conversions are pure functions: everything computed afterwards in the process would be rounded differently)"""
+    import decimal
+    saved, before = decimal.getcontext().copy(), _context_fingerprint()
     try:
         return ("ok", f(*a))
     except Exception as e:  # noqa
         return ("err", type(e).__name__)
+    finally:
+        after = _context_fingerprint()
+        if after != before:
+            CONTEXT_LEAKS.append((getattr(f, "__name__", "?"), {k: (before[k], after[k]) for k in after if after[k] != before[k]}, [str(x) for x in a]))
+            saved.clear_flags()
+            decimal.setcontext(saved)
 
 
 def _same(impl, line, as_int=False) -> bool:
@@ -290,9 +314,41 @@ def helpers_correspondence(ctx: Ctx, hp, g):
                 if tx[0] != "ok" or not (t - 1 <= tx[1] <= t):
                     ctx.violate("helpers.inverse.x96", f"sqrt_price_x96_to_tick(base_unit_price_to_sqrt_price_x96(tick_to_base_unit_price({t}))) = {tx[1]} "
                                 f"(decimals {d0},{d1}, token0_quote={q0})", rp)
+        if price is not pr[1] and t < MAX_TICK:
+            # the converse direction (price -> tick -> price) for a price that is NOT on a tick: the pool's sqrt price lies in
+            # [sqrtAt t, sqrtAt (t+1)), so both routes must answer within one tick of t, and the price of the answered tick is within
+            # one tick (a factor 1.0001) of the price asked
+            ctx.count("converse_inverse_checked")
+            for route, r in (("log", bt), ("x96", tx if bx[0] == "ok" and bx[1] > 0 else ("skip", None))):
+                if r[0] == "skip":
+                    continue
+                if r[0] != "ok" or abs(r[1] - t) > 1:
+                    ctx.violate(f"helpers.inverse.converse.{route}", f"price {price} (sqrt price {sx} in [sqrtAt {t}, sqrtAt {t + 1})) -> tick {r[1]} by the {route} route "
+                                f"(decimals {d0},{d1}, token0_quote={q0})", dict(rp, sx=str(sx)))
+                    continue
+                back = _exc_name(hp.tick_to_base_unit_price, max(MIN_TICK, min(MAX_TICK, r[1])), d0, d1, q0)
+                if back[0] == "ok" and price > 0:
+                    ratio = Fraction(back[1]) / Fraction(price)
+                    lim = Fraction(10001, 10000) * (1 + Fraction(1, 10 ** 9))
+                    if not (1 / lim <= ratio <= lim):
+                        ctx.violate(f"helpers.inverse.converse.{route}.price", f"tick_to_base_unit_price(price_to_tick({price})) = {back[1]}: more than one tick away "
+                                    f"(ratio {float(ratio):.9f}; decimals {d0},{d1}, token0_quote={q0})", dict(rp, sx=str(sx)))
         if price is pr[1]:
             if bt[0] != "ok" or abs(bt[1] - t) > 1:
                 ctx.violate("helpers.inverse", f"base_unit_price_to_tick(tick_to_base_unit_price({t})) = {bt[1]} (decimals {d0},{d1}, token0_quote={q0})", rp)
+        # the un-rounded tick of a price (estimate helpers take the token ratio there): its floor is the log route's tick, up to the libm allowance
+        real = getattr(hp, "base_unit_price_to_real_tick", None)
+        if real is not None:
+            rt = _exc_name(real, price, d0, d1, q0)
+            ctx.count("real_tick_calls_checked")
+            if rt[0] != bt[0] or (rt[0] == "err" and rt[1] != bt[1]):
+                ctx.violate("helpers.real_tick.outcome", f"base_unit_price_to_real_tick({price},{d0},{d1},{q0}) -> {rt}, base_unit_price_to_tick -> {bt}", rp)
+            elif rt[0] == "ok":
+                with localcontext() as c:
+                    c.prec = 60
+                    L = Decimal.sqrt((1 / price if q0 else price) / Decimal(10 ** (d0 - d1))).ln() / (Decimal("1.0001").ln() / 2)
+                    if abs(Decimal(rt[1]) - L) > LG_DELTA_TICKS:
+                        ctx.violate("helpers.real_tick.value", f"base_unit_price_to_real_tick({price},{d0},{d1},{q0}) = {rt[1]!r}, the tick of that price is {L:.12f}", rp)
         # the hypothesis on libm under which the log route is proved, on this very call
         if bt[0] == "ok":
             sp = _exc_name(lambda: Decimal.sqrt((1 / price if q0 else price) / Decimal(10 ** (d0 - d1))))
@@ -316,6 +372,16 @@ def helpers_correspondence(ctx: Ctx, hp, g):
         add("Decimal(10 ** e)", ("ok", Decimal(10 ** e)), f"fac {e}", False, {"fn": "fac", "e": e})
     ctx.impl_traces += len(reqs)
     ctx.note("helpers_requests", len(reqs))
+    seen = {}
+    for name, diff, args in CONTEXT_LEAKS:
+        seen[name] = seen.get(name, 0) + 1
+        if seen[name] <= 2:
+            ctx.violate(f"helpers.process-state.decimal-context.{name}",
+                        f"{name}({', '.join(args)}) changed the process-wide decimal context and did not restore it: " +
+                        ", ".join(f"{k} {a!r} -> {b!r}" for k, (a, b) in sorted(diff.items())) + " (every conversion afterwards is rounded differently)",
+                        {"fn": "context_leak", "helper": name, "args": args})
+    ctx.note("helper_calls_leaving_the_decimal_context_changed", len(CONTEXT_LEAKS))
+    CONTEXT_LEAKS.clear()
     if ctx.driver_ok and reqs:
         out = driver_batch([q[2] for q in reqs], exe="driver_tick")
         for (what, impl, line, as_int, rp), o in zip(reqs, out):
@@ -367,6 +433,19 @@ def replay(ctx: Ctx, case) -> bool:
         e = math.floor(math.log(sp, hp.SQRT_1p0001))
         print(f"floor(log({sp})) = {e}")
         return lg_oracle_ok(sp, e)
+    if fn == "context_leak":
+        f = getattr(hp, case["helper"], None)
+        if f is None:
+            return True
+        a = case["args"]
+        args = (Decimal(a[0]) if "." in a[0] or "E" in a[0].upper() or case["helper"].startswith("base_unit_price") else int(a[0]), int(a[1]), int(a[2]), a[3] == "True")
+        CONTEXT_LEAKS.clear()
+        _exc_name(f, *args)
+        bad = list(CONTEXT_LEAKS)
+        CONTEXT_LEAKS.clear()
+        for name, diff, _ in bad:
+            print(f"   {name} changed the decimal context: {diff}")
+        return not bad
     if fn in ("helpers_price", "fac"):
         return True
     print("replay: unknown case kind", fn)
